@@ -1071,10 +1071,10 @@ class Result:
             sorted_=True
 
         to_keep, to_drop = [], []
-        for _, group in grouper(groups, key=itemgetter(0), sorted_=sorted_):
-            for _, group in grouper(group, key=itemgetter(1), sorted_=sorted_):
+        for _, group in grouper(groups, key=itemgetter(0), sorted_=False):
+            for _, group in grouper(group, key=itemgetter(1), sorted_=False):
                 max_val, k, d = -float('inf'), [], []
-                for _, group in grouper(group, key=itemgetter(2), sorted_=sorted_):
+                for _, group in grouper(group, key=itemgetter(2), sorted_=False):
                     group = list(group)
                     ids,vals = zip(*((g[3], mean(islice(g[-1],n))) for g in group))
                     mean_val = mean(vals)
